@@ -59,6 +59,8 @@ fn lists() -> Vec<(&'static str, Vec<Vec<(Combo, f32)>>)> {
     vec![
         ("L1", vec![r(&[("AsKs", 1.0), ("AhKh", 0.5), ("7s7h", 0.25)]), r(&[("KdKc", 1.0), ("KsKd", 0.5), ("As2s", 1.0)])]),
         ("L2", vec![r(&[("AsKs", 1.0), ("AhKh", 0.5)]), r(&[("KdKc", 1.0), ("KsKd", 1.0)]), r(&[("AdQd", 1.0), ("KsQs", 0.25)])]),
+        // three different range widths (1, 3, 2): any internal reordering of the seats by width is a 3-cycle
+        ("L4", vec![r(&[("AdKd", 1.0)]), r(&[("QsJs", 1.0), ("QhJh", 0.5), ("7d7c", 1.0)]), r(&[("TsTh", 1.0), ("AsTd", 0.5)])]),
         ("L3", vec![r(&[("7s7h", 1.0), ("7s2s", 0.5), ("As7d", 0.5)]), r(&[("AhAd", 1.0), ("2h2d", 0.5), ("7c2c", 1.0), ("AsKs", 0.125)])]),
     ]
 }
@@ -181,7 +183,7 @@ pub fn run(tier: &str) -> i32 {
     rep.machine(showdowns.max(1), runs, runs);
     rep.sub(
         "relabel-reorder",
-        if thorough { "all 220 flops over ranks A,7,2 x 3 suit-asymmetric overlapping range lists x 24 suit permutations x all player orders; plus all 22,100 flops x 2 lists x 24 permutations x {identity, reversed} order. distinct_nontrivial = base configurations with both outright wins and ties" } else { "all 220 flops over the 12 cards of ranks A,7,2 x 3 suit-asymmetric overlapping range lists x 24 suit permutations x all n! player orders. distinct_nontrivial = base configurations with both outright wins and ties" },
+        if thorough { "all 220 flops over ranks A,7,2 x 4 suit-asymmetric overlapping range lists x 24 suit permutations x all player orders; plus all 22,100 flops x 2 lists x 24 permutations x {identity, reversed} order. distinct_nontrivial = base configurations with both outright wins and ties" } else { "all 220 flops over the 12 cards of ranks A,7,2 x 4 suit-asymmetric overlapping range lists x 24 suit permutations x all n! player orders. distinct_nontrivial = base configurations with both outright wins and ties" },
         runs,
         nontrivial,
         false,
